@@ -490,10 +490,21 @@ func (c *Ctx) strategyNameTables() (validator, create, set []string, okAll bool)
 	setFn := p.Fn("internal/loadbalancer", "LoadBalancer", "SetStrategy")
 	set = c.switchStrings(setFn)
 	if len(set) == 0 && setFn != nil {
-		// SetStrategy may share the factory
+		// SetStrategy may share the factory, or keep its own name table in a helper it calls
 		for _, ci := range callsIn(setFn) {
-			if StaticFn(ci) == c.strategyFactory() {
+			g := StaticFn(ci)
+			if g == nil {
+				continue
+			}
+			if g == c.strategyFactory() {
 				set = create
+				break
+			}
+			if pk := fnPkg(g); pk != nil && strings.HasSuffix(pk.Pkg.Path(), "/internal/loadbalancer") {
+				if ks := c.switchStrings(g); contains(ks, "round_robin") && contains(ks, "least_connections") {
+					set = ks
+					break
+				}
 			}
 		}
 	}
